@@ -370,12 +370,10 @@ func verifH_SrvBlocked() {
 	for _, f := range car.sent {
 		if cs, ok := f.Frame.(*tunnelpb.ServerToClient_CloseStream); ok {
 			nclose++
-			if event == 1 && phase == 1 {
-				verifAssert(codes.Code(cs.CloseStream.Status.GetCode()) == codes.ResourceExhausted, "C06+C09.overrun-fails-that-rpc-with-resource-exhausted")
-			}
 			if event == 1 {
-				// (with the handler inside SendMsg its own context error may win the race for the close frame: observation O8)
-				verifAssert(codes.Code(cs.CloseStream.Status.GetCode()) != codes.OK, "C06+C09.overrun-fails-that-rpc")
+				// whichever of the receive loop and the woken handler gets to send the close frame,
+				// the RPC fails with the violation, not with the handler's consequent context error
+				verifAssert(codes.Code(cs.CloseStream.Status.GetCode()) == codes.ResourceExhausted, "C06+C09.overrun-fails-that-rpc-with-resource-exhausted")
 			}
 		}
 	}
